@@ -22,6 +22,7 @@ import (
 	"github.com/protolambda/zrnt/eth2/beacon/capella"
 	"github.com/protolambda/zrnt/eth2/beacon/common"
 	"github.com/protolambda/zrnt/eth2/beacon/deneb"
+	"github.com/protolambda/zrnt/eth2/beacon/phase0"
 	"pgregory.net/rapid"
 
 	"zrntverif/refspec"
@@ -427,7 +428,85 @@ func engineFaults(r *report.Run, l *sim.Lock, st *step, fork int, refPost *refsp
 	return nil
 }
 
+// runLarge: registries of more than a thousand validators, slot processing only (no blocks, so no reference
+// model is needed: the oracle is "an ended context is an error"). Per-validator loops poll the context only every
+// 2^5 / 2^10 iterations (phase0 pending attestations, phase0 deltas); those polls do not exist on the <=130-validator
+// states of the chain generator. The state is built by the library itself (KickStartState) and advanced through
+// the configured fork upgrades by ProcessSlots; every step is fault-injected.
+func runLarge(r *report.Run, cc *sim.ChainCase) *report.Failure {
+	cfg := cc.Config.Build()
+	spec := zb.ToSpec(cfg)
+	n := cc.Genesis.N
+	vals := make([]phase0.KickstartValidatorData, n)
+	for i := 0; i < n; i++ {
+		bal := sim.AmountTable[0]
+		if i < len(cc.Genesis.AmountClass) {
+			bal = sim.AmountTable[cc.Genesis.AmountClass[i]%len(sim.AmountTable)]
+		}
+		var wc common.Root
+		wc[0], wc[31], wc[30] = 1, byte(i), byte(i>>8)
+		vals[i] = phase0.KickstartValidatorData{Pubkey: common.BLSPubkey(refspec.KeyPubkey(uint64(i))), WithdrawalCredentials: wc, Balance: common.Gwei(bal)}
+	}
+	var st *phase0.BeaconStateView
+	var epc *common.EpochsContext
+	if err, pan := sim.Guard(func() error {
+		var e error
+		st, epc, e = phase0.KickStartState(spec, common.Root{1}, 1000, vals)
+		return e
+	}); err != nil || pan {
+		return report.Failf("harness", "KickStartState(%d validators): %v", n, err)
+	}
+	l := &sim.Lock{LibSpec: spec, Lib: zb.Upgradeable(st), Epc: epc}
+	spe := uint64(spec.SLOTS_PER_EPOCH)
+	slot := uint64(0)
+	for i := range cc.Actions {
+		a := &cc.Actions[i]
+		if a.Kind != "skip" {
+			continue
+		}
+		target := slot + uint64(a.Slots)
+		fork := zb.ForkOfState(l.Lib.BeaconState)
+		stp := &step{kind: "slots", slot: target}
+		if f := inject(r, l, stp, fork); f != nil {
+			if f == errStop {
+				return nil
+			}
+			return f
+		}
+		if target/spe > slot/spe {
+			r.Hit("large-registry:epoch-boundary-step")
+			r.Hit("large-registry:" + refspec.ForkNames[fork])
+		}
+		if err, pan := sim.Guard(func() error {
+			return common.ProcessSlots(context.Background(), spec, l.Epc, l.Lib, common.Slot(target))
+		}); err != nil || pan {
+			return nil
+		}
+		slot = target
+	}
+	return nil
+}
+
+func genLarge(rt *rapid.T) *sim.ChainCase {
+	far := refspec.FarFutureEpoch
+	cc := &sim.ChainCase{Profile: "large-registry"}
+	forks := rapid.SampledFrom([][4]uint64{{far, far, far, far}, {1, far, far, far}, {1, 2, far, far}, {1, 1, 2, far}, {1, 1, 2, 3}, {1, 1, 1, 1}}).Draw(rt, "forks")
+	cc.Config = sim.ConfigCase{Family: "minimal", ForkEpochs: forks}
+	cc.Genesis = sim.GenesisCase{N: rapid.SampledFrom([]int{1025, 1056, 1100, 2049, 2100}).Draw(rt, "n"), GenesisTime: 1000}
+	for i := 0; i < 8; i++ {
+		cc.Genesis.AmountClass = append(cc.Genesis.AmountClass, rapid.SampledFrom([]int{0, 0, 4, 5}).Draw(rt, "amount_class"))
+	}
+	steps := rapid.IntRange(3, 5).Draw(rt, "steps")
+	for i := 0; i < steps; i++ {
+		cc.Actions = append(cc.Actions, sim.Action{Kind: "skip", Slots: rapid.SampledFrom([]int{8, 8, 9, 16}).Draw(rt, "slots")})
+	}
+	return cc
+}
+
 func run(r *report.Run, cc *sim.ChainCase) *report.Failure {
+	if cc.Profile == "large-registry" {
+		return runLarge(r, cc)
+	}
 	cfg := cc.Config.Build()
 	chain, err := sim.NewChain(cfg, &cc.Genesis)
 	if err != nil {
@@ -566,7 +645,7 @@ func isDefaultPayload(sb *refspec.SignedBlock) bool {
 func TestCheck(t *testing.T) {
 	r := report.Begin("C18")
 	defer r.Finish()
-	r.Rule("for every ProcessSlots / StateTransition step of generated chains: poll count N measured with a counting context, then one re-run from a fresh copy per k in 1..N (all of them when N<=400, else first/last 50 and ~300 of the rest) with the context ended (alternately context.Canceled and context.DeadlineExceeded) from the k-th poll on; for every payload-carrying block the full product of engine verdicts {valid,invalid,error} per engine call (the error rotating over a plain error and errors wrapping context.DeadlineExceeded / context.Canceled while the caller's context is alive) (9 for bellatrix/capella, 27 for deneb). non-trivial = an injected cancellation or engine verdict; distinct key = (fork, step kind, polling call site) / (fork, verdict triple)")
+	r.Rule("for every ProcessSlots / StateTransition step of generated chains (<=130 validators) and every epoch-crossing ProcessSlots step of library-built states with 1025..2100 validators (where the periodic polls of the per-validator loops exist): poll count N measured with a counting context, then one re-run from a fresh copy per k in 1..N (all of them when N<=400, else first/last 50 and ~300 of the rest) with the context ended (alternately context.Canceled and context.DeadlineExceeded) from the k-th poll on; for every payload-carrying block the full product of engine verdicts {valid,invalid,error} per engine call (the error rotating over a plain error and errors wrapping context.DeadlineExceeded / context.Canceled while the caller's context is alive) (9 for bellatrix/capella, 27 for deneb). non-trivial = an injected cancellation or engine verdict; distinct key = (fork, step kind, polling call site) / (fork, verdict triple)")
 	r.Assume("cancellation between two polls is indistinguishable from cancellation at the next poll; work after the last poll cannot be interrupted by construction", "steps on which the undisturbed library run already fails or diverges from the reference (C01/C02) end the case without a verdict")
 	replay := func(raw json.RawMessage) *report.Failure {
 		var cc sim.ChainCase
@@ -582,6 +661,11 @@ func TestCheck(t *testing.T) {
 	r.Mandatory("cancel-reason:canceled", "cancel-reason:deadline-exceeded", "cancel:phase0", "cancel:altair", "cancel:bellatrix", "cancel:capella", "cancel:deneb", "epoch-processing-step", "step-with>=5-polls-over>=2-sites",
 		"engine-fault:bellatrix", "engine-fault:capella", "engine-fault:deneb", "engine-all-valid:bellatrix", "engine-all-valid:capella", "engine-all-valid:deneb", "versioned-hashes-nonempty")
 	opts := sim.GenOpts{CustomPct: 90, AllowMainnet: false, MaxSlots: 36, BlockPct: 65, MaxSkip: 2, OpsBias: 50, MaxN: 40}
+	r.Mandatory("large-registry:epoch-boundary-step", "large-registry:phase0", "large-registry:altair")
+	r.Search(t, "large-registry", 1, r.N(16, 96), func(rt *rapid.T) (any, *report.Failure) {
+		cc := genLarge(rt)
+		return cc, run(r, cc)
+	})
 	r.Search(t, "chains", 0, r.N(160, 2400), func(rt *rapid.T) (any, *report.Failure) {
 		cc := sim.GenChainCase(rt, opts)
 		return cc, run(r, cc)
